@@ -288,6 +288,11 @@ class Ctx:
         the others are printed as NOTE lines (they belong to `./check <gid>`). A growth check whose
         machinery breaks is a NOTE, not a failure of this check."""
         import importlib
+        if self.parent is not None:   # no nesting: an included check runs its own part only
+            return
+        if os.environ.get("VERIF_NO_INCLUDE"):   # development aid: the property's own part only
+            self.included[gid] = {"why": why, "skipped": "VERIF_NO_INCLUDE"}
+            return
         sub = Ctx(gid, self.tier, self.seed, None)
         sub.parent = self
         sub.options = dict(options or {})
